@@ -223,6 +223,9 @@ def run_property(prop, tier="quick", seed=0, explain=None):
             from . import equiv
             for cfg in sorted({o.cfg for o in failing if o.cfg}):
                 res = equiv.compare(cfg)
+                if res.get("reason"):
+                    ctx.note("config %s: equivalence with the reviewed tree not consulted: %s" % (cfg, res["reason"]))
+                    continue
                 if res.get("equivalent"):
                     n = 0
                     for o in failing:
@@ -232,6 +235,8 @@ def run_property(prop, tier="quick", seed=0, explain=None):
                             n += 1
                     ctx.note("config %s: %d failing obligation(s) discharged by equivalence with the reviewed tree (%d functions, all declarations identical)"
                              % (cfg, n, res["compared"]))
+                    print("%s note: config %s: %d obligation(s) fail as written but the tree is function-for-function identical to the "
+                          "reviewed tree (%d bodies, all declarations) — discharged" % (prop, cfg, n, res["compared"]))
                 else:
                     ctx.note("config %s: not equivalent to the reviewed tree (%d functions differ, %d added, %d removed, %d declarations differ)"
                              % (cfg, len(res.get("changed", ())), len(res.get("added", ())), len(res.get("removed", ())),
